@@ -86,6 +86,23 @@ func (exec) Do(line string) string {
 	return "bad-op"
 }
 
+// meaning is the plain base-128 little-endian value of a complete varint (continuation bit on all but the
+// last byte); ok is false if it is not a complete varint or does not fit a uint64.
+func meaning(b []byte) (uint64, bool) {
+	var x uint64
+	for i, c := range b {
+		last := i == len(b)-1
+		if (c&0x80 != 0) == last {
+			return 0, false
+		}
+		if i > 9 || (i == 9 && c&0x7f > 1) {
+			return 0, false
+		}
+		x |= uint64(c&0x7f) << (7 * uint(i))
+	}
+	return x, len(b) > 0
+}
+
 var widthMax = map[string]uint64{"8": 1<<8 - 1, "16": 1<<16 - 1, "32": 1<<32 - 1, "64": 1<<64 - 1}
 
 // monitor: the property statement read literally on implementation outputs.
@@ -117,6 +134,12 @@ func monitor(c hxlib.Case, outs []string) (vs []hxlib.Violation) {
 				}
 				if v > widthMax[w] {
 					add(i, "C10:value-exceeds-width:"+f[0], "value exceeds width")
+				}
+				// "never wrong values": the result must be the base-128 meaning of exactly the consumed bytes
+				if k > 0 && k <= len(in) {
+					if want, ok := meaning(in[:k]); !ok || want != v {
+						add(i, "C10:wrong-value:"+f[0], fmt.Sprintf("consumed bytes %s mean %d (fits uint64: %v) but %d was returned", hxlib.Hex(in[:k]), want, ok, v))
+					}
 				}
 				// round trip: if the previous line packed a number with the same width and this input starts with that packed form
 				if i > 0 {
